@@ -50,11 +50,21 @@ func newTokenBucket(rate *rate) *tokenBucket {
 
 	return &tokenBucket{
 		period:          period,
-		timePerToken:    time.Duration(int64(period) / rate.average),
+		timePerToken:    timePerToken(period, rate.average),
 		burst:           rate.burst,
 		lastRefresh:     clock.Now().UTC(),
 		availableTokens: rate.burst,
 	}
+}
+
+// timePerToken returns the refill interval of one token, at least one nanosecond:
+// a zero interval would disable refilling and turn every computed delay into 0.
+func timePerToken(period time.Duration, average int64) time.Duration {
+	d := time.Duration(int64(period) / average)
+	if d <= 0 {
+		return clock.Nanosecond
+	}
+	return d
 }
 
 // consume makes an attempt to consume the specified number of tokens from the
@@ -93,7 +103,7 @@ func (tb *tokenBucket) update(rate *rate) error {
 	if rate.period != tb.period {
 		return fmt.Errorf("period mismatch: %v != %v", tb.period, rate.period)
 	}
-	tb.timePerToken = time.Duration(int64(tb.period) / rate.average)
+	tb.timePerToken = timePerToken(tb.period, rate.average)
 	tb.burst = rate.burst
 	if tb.availableTokens > rate.burst {
 		tb.availableTokens = rate.burst
